@@ -184,7 +184,7 @@ def run(rep, tier):
         name = ("%s under every fault schedule (<= %d body frames each delivered / failing / end of body; declared checksums present or not, matching or "
                 "not; future dropped at any suspension point; the code's own rejections): A no effect on the object unless the write succeeds, B no "
                 "temporary file survives, C success = one rename of a complete flushed temporary file with matching checksums" % (op, n_frames))
-        rep.obligation(name, "rsx+z3", "holds" if not findings else "violated", time.time() - t0,
+        rep.obligation(name, "rsx+z3", "holds" if not findings else ("known" if all(rep.known.lookup(rep.prop, k_) for k_ in findings) else "violated"), time.time() - t0,
                        detail=dict(stats, solver_queries=m.ex.queries, findings=sorted(findings)), queries=m.ex.queries, states=len(paths))
     # ---- D: two writers ----------------------------------------------------------------------------------------------
     t0 = time.time()
@@ -265,7 +265,8 @@ def run(rep, tier):
     rep.obligation("fault family on the real backend: %d runs (body error at every frame, each checksum wrong, future dropped after every poll count, "
                    "interleaved and free-running concurrent writers; previous object absent / present): every outcome is the previous or the complete "
                    "new state, no temporary file" % len(outs), "replayer(real backend; not solver-decided)",
-                   "holds" if not native else "violated", time.time() - t0, detail={"classes": {c: len(v) for c, v in native.items()}}, queries=len(outs))
+                   "holds" if not native else ("known" if all(c in used for c in native) and not rep.violations else "violated"), time.time() - t0,
+                   detail={"classes": {c: len(v) for c, v in native.items()}}, queries=len(outs))
     rep.bound("body of <= %d frames; one abandonment per run; two writers; multipart uploads of <= 2 parts" % n_frames)
     rep.assume("file-system effects are a trace of create / write / flush / rename / remove / copy / mkdir events over path terms; rename is atomic; "
                "tokio::fs calls succeed (no disk faults); the path constructors of fs.rs are terms (decided by C17)")
